@@ -75,6 +75,9 @@ def sym_interventions(ctx, p, kinds_allowed=None, scalar_params=True, var_positi
                     dic[j] = (m, v)
                     d[part] = 'tuple'
         descr.append(d)
+    if ctx.params.get('dict_order') == 'desc':
+        # the caller may build its dictionaries in any order: insertion order descending
+        do, noise, shift = (dict(reversed(list(x.items()))) for x in (do, noise, shift))
     return do, noise, shift, descr
 
 
